@@ -17,7 +17,7 @@ VerdictFree(o) ==
     ELSE "ok"
 VerdictOf(x) == IF x.free THEN VerdictFree(x.o) ELSE Verdict(x.file, x.op, x.o)
 (* what the lookup of the operation's name meets, for signatures *)
-LookupOf(x) == IF x.free \/ TooShort(x.file) \/ x.file.hdr # "ok" THEN "-" ELSE Lookup(x.file, x.op)[1]
+LookupOf(x) == IF x.free \/ x.op = "upload" \/ TooShort(x.file) \/ x.file.hdr # "ok" THEN "-" ELSE Lookup(x.file, x.op)[1]
 
 WantOf(x) == IF x.free THEN (IF x.o.open = "parks" THEN "memory" ELSE "any") ELSE ExpectMode(x.file, x.op)
 Bad == {<<i, VerdictOf(Trace[i]), LookupOf(Trace[i]), WantOf(Trace[i])>> : i \in {j \in 1..Len(Trace) : VerdictOf(Trace[j]) # "ok"}}
